@@ -148,6 +148,18 @@ def _compare(run, ef, v, data, bad, voc_sht, voc_pt, voc_hdr, SEC_CLASS, SEG_CLA
                 bad('get_section_by_name.header', 'header of index %d' % gi, dict(sec.header))
             if not ef.has_section(name):
                 bad('has_section', True, False)
+        # names that are not section names although the name table contains them as NUL-terminated substrings (tails of other names),
+        # asked of a fresh object before any other lookup and again afterwards
+        from elftools.elf.elffile import ELFFile
+        tails = sorted({nm[k:] for nm in byname for k in (1, 2, len(nm) - 1) if 0 < k < len(nm)} - set(byname))[:6]
+        fresh = ELFFile(io.BytesIO(data))
+        for q in tails + sorted(n for n in byname if n)[:2]:
+            for obj, when in ((fresh, 'first'), (ef, 'later')):
+                if bool(obj.has_section(q)) != (q in byname):
+                    bad('has_section.' + when, q in byname, not (q in byname), t='tail' if q not in byname else 'present')
+        for q in tails[:2]:
+            if fresh.get_section_by_name(q) is not None or fresh.get_section_index(q) is not None:
+                bad('absent_name', None, q, t='tail')
         for absent in ('.no_such_section', '.tex'):
             if absent not in byname:
                 if ef.get_section_by_name(absent) is not None or ef.get_section_index(absent) is not None or ef.has_section(absent):
